@@ -49,7 +49,8 @@ def burst_ops(rng, i, n, sleeps, kinds=("put", "get", "raw")):
         elif kind == "get":
             ops.append(["get", f"C{i}", f"F{k}"])
         else:
-            ops.append(["raw", f"@C{i}:R{k}={rng.randint(0, 99)}" if rng.random() > 0.05 else rng.choice(["", " ", "  \t"])])      # blank raw items are lines too
+            # blank raw items are lines too; a bare LF or CR inside raw data does not end a line (only CR LF does)
+            ops.append(["raw", f"@C{i}:R{k}={rng.randint(0, 99)}" if rng.random() > 0.1 else rng.choice(["", " ", "  \t", f"@C{i}:R{k}=On\n@C{i}:R{k}b=1", f"@C{i}:R{k}=a\rb", f"@C{i}:R{k}=x\n"])])
     return ops
 
 
